@@ -1104,7 +1104,8 @@ func init() {
 	Register(&Prop{
 		ID:    "C18",
 		Title: "Built-in functions obey their algebraic contracts for all arguments",
-		Rule: "rapid draws one function-call expression per case (classes: DECODE(ENCODE(v,b),b) over scalars x {base64,base32,hex,unknown} in any letter case; " +
+		Rule: "[Dimensions added in rounds p-r of the seeded-defect evaluation: a quarter of the cases run 1-3 built-in calls on arguments of any shape right before the query (outcome ignored); UNWIND also as two results built from one array column in one query, on documents with spare capacity; HASH also of two equal-looking values (0 / -0, 1 / '1') in one query, each compared with the same call in a query of its own.] " +
+			"rapid draws one function-call expression per case (classes: DECODE(ENCODE(v,b),b) over scalars x {base64,base32,hex,unknown} in any letter case; " +
 			"HASH over scalars x {md5,sha1,sha256,sha512,unknown}; FIRST/LAST/ELEMENTAT over arrays (empty, nested, with NULLs and objects, NULL array, " +
 			"ARRAY(..) literals) x indexes {-2,-1,0,1,n-1,n,n+1,n+5}; UNWIND (also twice); ARRAY; CONCAT with NULLs; IF with boolean column / " +
 			"comparison / IS NULL conditions; TO_LOWER/TO_UPPER over multi-byte strings; CHANGETYPE double->string->double, engine-text->double->string, " +
